@@ -159,10 +159,10 @@ Classes(e) == {c \in [tpl : TplsOf(e), idx : 1..MaxLeaves, mut : Muts] :
 (* returns after allocating / computing out of proportion).                 *)
 
 \* repaired on the tree: HelloEndsAfterRandom, SetExtensionSlicesPast, EmptyTurnData, TurnTcpFrameLength,
-\* MidPlusOneOverflows.  Still open (the step returns, but allocates far beyond AllocFactor):
+\* MidPlusOneOverflows, PostHvrSeqOverflows (state dependent: client, after a HelloVerifyRequest).  Still open (the step returns, but allocates far beyond AllocFactor):
 \* StapAAmplifies, MediaSectionsUnbounded.
 DeviationNames == {"HelloEndsAfterRandom", "SetExtensionSlicesPast", "EmptyTurnData", "TurnTcpFrameLength",
-                   "MidPlusOneOverflows", "StapAAmplifies", "MediaSectionsUnbounded"}
+                   "MidPlusOneOverflows", "PostHvrSeqOverflows", "StapAAmplifies", "MediaSectionsUnbounded"}
 
 Crashes(e, t, l, m) ==
   \/ /\ "HelloEndsAfterRandom" \in Deviations
@@ -176,6 +176,8 @@ Crashes(e, t, l, m) ==
      /\ e = "turn_tcp" /\ l.n = "length" /\ m \in {"len_max"}      \* the length that delimits the message on the stream
   \/ /\ "MidPlusOneOverflows" \in Deviations
      /\ e = "pc_sdp" /\ l.n = "mid" /\ m = "len_max"
+  \/ /\ "PostHvrSeqOverflows" \in Deviations
+     /\ e = "dtls_client" /\ t = "dg.serverhello" /\ l.n = "sh.mseq" /\ m = "val_max"
   \/ /\ "StapAAmplifies" \in Deviations
      /\ e \in {"rtp", "rtp_transport"} /\ t = "rtp.stapa" /\ m = "dup_fill_empty"
   \/ /\ "MediaSectionsUnbounded" \in Deviations
